@@ -168,7 +168,7 @@ def main():
             {"name": "correspondence", "path": "harness/ vlib/ check", "serves_properties": [c["property_id"] for c in checks],
              "kind_free_text": "Rust harness running the real code + coqc vm_compute evaluation of model and spec on the same generated cases"}],
         "checks": checks, "not_applicable": na,
-        "notes": "add_only=false: the first hook commit also extends the workspace lint `unexpected_cfgs` check-cfg list in Cargo.toml by 'cfg(boreal_verif)' (one edited line, no behaviour). Properties listed under not_applicable with 'under construction' are being built; none is considered inapplicable to the technique."}
+        "notes": "add_only=false: the first hook commit also extends the workspace lint `unexpected_cfgs` check-cfg list in Cargo.toml by 'cfg(boreal_verif)' (one edited line, no behaviour). Properties listed under not_applicable with 'under construction' are being built; none is considered inapplicable to the technique. Every check rebuilds the harness from /repo's current working tree by content: vlib/core.py cargo_build keeps a sha256 of the local sources beside the build output and forces cargo to recompile the local packages when it differs (modification times are not trusted); corpus files name files of the tree with ${REPO}/${VERIF} placeholders (DESIGN.md §6, §12.6)."}
     json.dump(m, open("MANIFEST.json", "w"), indent=1)
     print("checks:", [c["property_id"] for c in checks], "pending:", [x["property_id"] for x in na])
 
